@@ -283,6 +283,24 @@ def body_model(case, rec):
                   lambda b=b, got=got, want=want: f"{b}: result {got.ravel()[:3]} file {want.ravel()[:3]}")
 
 
+    # ... and its processed-data and scene containers (the file's, whatever the running detector held before the load)
+    for grp, key in (("/data", "data"), ("/scene", "scene")):
+        wv = {k: v for k, v in snap_x[key].items() if not k.endswith(":")}  # variables only: empty groups are not asserted for the result
+        gv = {}
+        if grp.strip("/") in res.children:
+            for k, v in _tree(res[grp]).items():
+                path, name = k.rsplit(":", 1)
+                rel = path[len(grp):] or "/"
+                if name:
+                    gv[f"{rel}:{name}"] = v
+        missing = sorted(set(wv) - set(gv))
+        surplus = sorted(set(gv) - set(wv))
+        differ = sorted(k for k in set(wv) & set(gv) if wv[k][0] != gv[k][0] or wv[k][1].shape != gv[k][1].shape
+                        or not np.array_equal(wv[k][1].astype(object), gv[k][1].astype(object)))
+        rec.check(not (missing or surplus or differ), f"result_does_not_hold_loaded_data:{key}",
+                  f"{grp} of the result: missing {missing[:3]} surplus {surplus[:3]} different {differ[:3]} (the file holds {len(wv)} variables)")
+
+
 def fill_model(detector, cont=None):
     """Probe model: put the 'running detector' contents in place."""
     fill(detector, cont or {})
